@@ -134,6 +134,7 @@ func main() {
 	genListen()
 	genSvcStart()
 	genBounds()
+	genMsgBounds()
 	if forProp == "" || forProp == "C15" {
 		genLockset()
 	}
